@@ -340,6 +340,9 @@ func (ch c09) Run(c *core.Ctx) {
 		if i%12 == 5 {
 			ch.mixed(c, env, core.NewRng(c.Seed, "C09m", c.Batch, i), i)
 		}
+		if i%12 == 9 {
+			ch.twice(c, env, core.NewRng(c.Seed, "C09t", c.Batch, i), i)
+		}
 		if i%10 == 7 && limit == 0 && !st.ScanRow {
 			// the same table on two fresh connections, the second with a peer that reads slowly: one of
 			// the transport Writes of the reply, and the one or two after it, take half of their bytes and
@@ -382,6 +385,59 @@ func (ch c09) Run(c *core.Ctx) {
 	}
 	if cl != nil {
 		cl.Finish()
+	}
+}
+
+// twice: one prepared statement, parsed once, is bound and executed a second and a third time with other
+// result format codes (every column the other way round; then the first vector again under the first portal's
+// name): each time the DataRows are encoded the way that Bind asked for and its Describe announced.
+func (ch c09) twice(c *core.Ctx, env *hs.Env, rng *core.Rng, idx int) {
+	t := c09gen(rng, false)
+	if len(t.OIDs) == 0 || len(t.OIDs) > 200 {
+		return
+	}
+	cols := wire.Columns{}
+	for j, o := range t.OIDs {
+		cols = append(cols, wire.Column{Name: fmt.Sprintf("c%d", j), Oid: oid.Oid(o), Width: -1})
+	}
+	st := &hs.Stmt{ID: fmt.Sprintf("t%d", idx), Cols: cols}
+	for _, r := range t.Rows {
+		st.Ops = append(st.Ops, hs.Op{K: "row", Vals: r})
+	}
+	st.Ops = append(st.Ops, hs.Op{K: "complete", Tag: fmt.Sprintf("SELECT %d", len(t.Rows))})
+	sess := &hs.Sess{Progs: map[string]*hs.Prog{"twice-table": {Stmts: []*hs.Stmt{st}}}}
+	cl := hs.NewClient(env.Dial(sess))
+	if err := cl.StartupOK("u"); err != nil {
+		c.Violate("startup", "startup failed", err.Error(), nil)
+		return
+	}
+	defer cl.Finish()
+	if out, _ := cl.Step(append(pg.Parse("s", "twice-table", nil), pg.Sync()...)); pg.Types(mustMsgs(out)) != "1Z" {
+		return
+	}
+	other := make([]int16, len(t.OIDs))
+	for j := range other {
+		other[j] = 1 - fmtFor(t.RFmts, j)
+	}
+	first := t.RFmts
+	for n, v := range []struct {
+		portal string
+		fmts   []int16
+	}{{"p1", first}, {"p2", other}, {"p1", other}, {"", first}} {
+		evStart := cl.C.NEvents()
+		in := append(append(pg.Bind(v.portal, "s", nil, nil, v.fmts), pg.Describe('P', v.portal)...), pg.Execute(v.portal, 0)...)
+		out, closed := cl.Step(append(in, pg.Sync()...))
+		if hangCheck(c, cl, nil) {
+			return
+		}
+		if k := pg.Types(mustMsgs(out)); n == 0 && !strings.HasPrefix(k, "2T") {
+			return // a format vector the server does not take: judged elsewhere
+		}
+		t.RFmts = v.fmts
+		c.Count("executions_of_one_statement_under_changing_result_formats", 1)
+		if !ch.judge(c, t, out, closed, cl.C.EventsFrom(evStart), idx) {
+			return
+		}
 	}
 }
 
